@@ -8,3 +8,9 @@ import Proofs.C19
 #print axioms C19.splitwords_spec
 #print axioms C19.query_result_spec
 #print axioms C19.query_unsat_spec
+#print axioms C19.printer_reader_roundtrip_partial
+#print axioms C19.printer_reader_blank_counterexample
+#print axioms C19.printer_reader_cr_counterexample
+#print axioms C19.coalesce_spec_partial
+#print axioms C19.sameLabels_counterexample
+#print axioms C19.listing_spec_partial
